@@ -8,6 +8,7 @@ func init() {
 		Title: "Expressions follow the precedence table, left associativity and typed arithmetic",
 		Rules: []string{
 			"R-PRATT: the operator model extracted from parser.go (precedences, registrations, binding powers per parse method, loop comparison) groups every operator sequence of <= 3 operators exactly as the specification grammar of C01",
+			"R-OPTABLE: the typed infix evaluators are dispatched under the equal-types test and the kind test; following the operands from evalInfixExp through the (possibly reordered) parameters, every case \"op\" computes left.Value <Go op> right.Value for the 11 integer, 10 float and 3 string operators; unary minus negates the payload; postfix ++/-- add/subtract 1 (float -- through the digit-preserving helper with its error consumed)",
 			"R-DIVGUARD: every integer / and % on the render path has a divisor that is a non-zero constant or is dominated by the non-zero edge of a comparison with 0",
 			"R-PRATT-SITES: every parseExpression call that is not an operator's open operand passes the lowest level (complete-expression positions)",
 		},
@@ -27,6 +28,8 @@ func init() {
 			bc := m.newBoundsChecker(NewSink())
 			bc.s = s
 			bc.RunDivOnly("R-DIVGUARD", evalFns)
+			m.RunOpTable(s, "R-OPTABLE")
+			s.RequireMin("R-OPTABLE", 30, "3 dispatches, 24 operator cases, unary minus, 4 postfix cases")
 		},
 	})
 }
